@@ -283,6 +283,10 @@ for _pid in ('C01', 'C03'):
 for _pid in ('C06', 'C01'):
     if 'OtterVerif.Props.C06Conserve' not in PROPS[_pid]['modules']:
         PROPS[_pid]['modules'].append('OtterVerif.Props.C06Conserve')
+# policy and table composed at quiescence: WeightedSize = total weight of the entries present, bound and eviction guard at the table
+for _pid in ('C04', 'C05', 'C07'):
+    if 'OtterVerif.Props.C04Table' not in PROPS[_pid]['modules']:
+        PROPS[_pid]['modules'].append('OtterVerif.Props.C04Table')
 for _pid, _mods in PINS.items():
     for _m in _mods:
         _name = 'OtterVerif.Pin.' + _m
